@@ -662,8 +662,11 @@ class Prims(object):
                 return len(done) == len(fs)
             dl = None if timeout is None else w.now + timeout
             w.block(pred, dl, 'wait_futures')
-            done = set(f for f in fs if f.done())
-            return DoneAndNotDone(done, fs - done)
+            # ordered results (by submission sequence) instead of sets: callers iterate them, and the
+            # address-based order of a set of Future objects would make schedules irreproducible
+            ordered = sorted(fs, key=lambda f: getattr(f, '_sim_seq', 0))
+            done = [f for f in ordered if f.done()]
+            return DoneAndNotDone(done, [f for f in ordered if not f.done()])
 
         self.Lock, self.RLock, self.Event, self.Condition = SimLock, SimRLock, SimEvent, SimCondition
         self.Thread, self.time, self.wait_futures = SimThreadObj, SimTime(), wait_futures
@@ -713,6 +716,8 @@ class SimExecutor(object):
         if self._shutdown:
             raise RuntimeError('cannot schedule new futures after shutdown')
         fut = concurrent.futures.Future()
+        self.world.seq += 1
+        fut._sim_seq = self.world.seq
         self.q.append((fut, fn, a, kw))
         self.submitted += 1
         self._ensure_workers()
